@@ -123,12 +123,36 @@ def stmtWf (env : Env) : Stmt → Bool
      | .ok (a, some _) => validAsset a && srcWf env a s && dstWf env a d
      | _ => false)
   | .sendAll ae (.src s) d =>
+    litsOK ae &&
     (match evalAssetE env ae with
      | .ok a => validAsset a && srcWf env a s && s.fallback.isNone && dstWf env a d
      | .error _ => false)
   | .setTxMeta _ e => okVal env e
   | .setAccountMeta acc _ e => okAcct env acc && okVal env e
   | _ => false
+
+/-! ## The bounded sources are tracked
+
+`ResolveBalances` fetches the balance of every bounded source account of every `send`
+(`NeededBalances`); the statements below say so for one statement, relative to the list
+of tracked pairs. -/
+
+def leavesIn (P : List (String × String)) (env : Env) (c : String) (es : List Expr) : Bool :=
+  es.all fun e =>
+    match evalAccount env e with
+    | .ok a => P.contains (a, c)
+    | .error _ => false
+
+def stmtLeavesIn (P : List (String × String)) (env : Env) : Stmt → Bool
+  | .send mon (.src s) _ =>
+    (match evalMonetary env mon with
+     | .ok (c, _) => leavesIn P env c s.neededAccts
+     | .error _ => false)
+  | .sendAll ae (.src s) _ =>
+    (match evalAssetE env ae with
+     | .ok c => leavesIn P env c s.neededAccts
+     | .error _ => false)
+  | _ => true
 
 /-! ## The two front ends -/
 
@@ -155,13 +179,15 @@ def envAgree (names : List String) (env ienv : Env) : Bool :=
   ienv.all (fun kv => names.contains kv.1)
 
 /-- The two front ends agree on the input: both fail, or they bind every variable to the
-    same value and the interpreter has fetched every balance the machine tracks. -/
+    same value, the interpreter has fetched every balance the machine tracks, and the
+    machine tracks the balance of every bounded source of the F1 statements. -/
 def FrontAgree (s : Script) (inp : Input) : Bool :=
   match prepare Cfg.fixed s inp, front s inp with
   | .error _, .error _ => true
   | .ok (env, _, pairs), .ok (ienv, queried) =>
     envAgree (s.vars.map (·.name)) env ienv &&
-    pairs.all (fun p => p.1 = "world" || queried.contains p)
+    pairs.all (fun p => p.1 = "world" || queried.contains p) &&
+    s.stmts.all (fun st => !stmtWf env st || stmtLeavesIn pairs env st)
   | _, _ => false
 
 /-! ## F1 -/
